@@ -337,6 +337,7 @@ func TestCheck(t *testing.T) {
 	bubble.SetT(t)
 	r := report.Start(t, "C15")
 	defer r.Finish()
+	bubble.WatchDeadlocks(3, func(frame, dump string) { r.DeadlockVerdict("c15", frame, dump) })
 
 	var cases []tcase
 	reqs := []uint64{model.FReqRecv, model.FReqFwd, model.FReqDeliv, model.FReqDel}
